@@ -163,7 +163,7 @@ var exhaustedDirents = [0]sys.Dirent{}
 //
 // Up to `n` entries are cached and returned. When `n` exceeds the cache, the
 // difference are read from the underlying sys.File via `Readdir`. EOF is
-// when `len(dirents)` returned are less than `n`.
+// when `Readdir` returns no entries.
 func (d *DirentCache) Read(pos uint64, n uint32) (dirents []sys.Dirent, errno sys.Errno) {
 	switch {
 	case pos > d.countRead: // farther than read or negative coerced to uint64.
@@ -190,10 +190,9 @@ func (d *DirentCache) Read(pos uint64, n uint32) (dirents []sys.Dirent, errno sy
 
 		if countToRead := int(n - 2); countToRead <= 0 {
 			return
-		} else if dirents, errno = d.f.Readdir(countToRead); errno != 0 {
+		} else if dirents, errno = d.readMore(countToRead); errno != 0 {
 			return
 		} else if countRead := len(dirents); countRead > 0 {
-			d.eof = countRead < countToRead
 			d.dirents = append(d.dotEntries, dirents...)
 			d.countRead += uint64(countRead)
 		}
@@ -223,19 +222,37 @@ func (d *DirentCache) Read(pos uint64, n uint32) (dirents []sys.Dirent, errno sy
 	// See if we need more entries.
 	if countToRead := int(n) - len(d.dirents); countToRead > 0 && !d.eof {
 		// Try to read more, which could fail.
-		if dirents, errno = d.f.Readdir(countToRead); errno != 0 {
+		if dirents, errno = d.readMore(countToRead); errno != 0 {
 			return
 		}
 
 		// Append the next read entries if we weren't at EOF.
 		if countRead := len(dirents); countRead > 0 {
-			d.eof = countRead < countToRead
 			d.dirents = append(d.dirents, dirents...)
 			d.countRead += uint64(countRead)
 		}
 	}
 
 	return d.cachedDirents(n), 0
+}
+
+// readMore reads up to `n` more entries. A read that returns fewer entries than asked for is not the end
+// of the directory (a host implementation drops the names that vanished since it buffered them): the end
+// is a read that returns nothing.
+func (d *DirentCache) readMore(n int) (dirents []sys.Dirent, errno sys.Errno) {
+	for n > 0 {
+		var more []sys.Dirent
+		if more, errno = d.f.Readdir(n); errno != 0 {
+			return nil, errno
+		}
+		if len(more) == 0 {
+			d.eof = true
+			break
+		}
+		dirents = append(dirents, more...)
+		n -= len(more)
+	}
+	return
 }
 
 // cachedDirents returns up to `n` dirents from the cache.
